@@ -8,6 +8,7 @@ import (
 	"encoding/json"
 	"fmt"
 	"os"
+	"time"
 
 	"github.com/smart-core-os/sc-api/go/traits"
 	"github.com/smart-core-os/sc-golang/internal/testproto"
@@ -100,18 +101,30 @@ func main() {
 	}
 	defer drv.Close()
 	mons := newMonitors(res)
-	runIEEE(f, res, drv)
-	runDirected(f, res, drv, mons)
-	runLogic(f, res, drv, mons)
-	runUnknown(f, res, drv, mons)
-	runWire(f, res, drv, mons)
-	runEquator(f, res, drv, mons)
-	runValues(f, res, drv, mons)
-	runPull(f, res, drv, mons)
-	runParked(f, res, drv, mons)
-	runFree(f, res, drv, mons)
-	runLossy(f, res, mons)
+	patience.configure(f.Thorough())
+	phase := func(name string, run func()) {
+		t0 := time.Now()
+		run()
+		if os.Getenv("C16_TIMING") != "" {
+			fmt.Fprintf(os.Stderr, "phase %-10s %6d ms\n", name, time.Since(t0).Milliseconds())
+		}
+	}
+	phase("ieee", func() { runIEEE(f, res, drv) })
+	phase("rounded", func() { runRounded(f, res, drv, mons) })
+	phase("directed", func() { runDirected(f, res, drv, mons) })
+	phase("logic", func() { runLogic(f, res, drv, mons) })
+	phase("unknown", func() { runUnknown(f, res, drv, mons) })
+	phase("wire", func() { runWire(f, res, drv, mons) })
+	phase("equator", func() { runEquator(f, res, drv, mons) })
+	phase("values", func() { runValues(f, res, drv, mons) })
+	phase("pull", func() { runPull(f, res, drv, mons) })
+	phase("parked", func() { runParked(f, res, drv, mons) })
+	phase("free", func() { runFree(f, res, drv, mons) })
+	phase("lossy", func() { runLossy(f, res, mons) })
 	delete(res.Extra, "ieee_tie")
+	if n := patience.note(); n != "" {
+		res.Notes = append(res.Notes, n)
+	}
 	if err := res.Write(f.Out); err != nil {
 		lib.Fatal(err)
 	}
@@ -176,6 +189,12 @@ func replay(f lib.Flags) int {
 		if out != want {
 			mons.equal.Violate(rp.Signature, "cmp.Equal() and proto.Equal behave differently on these raw unknown bytes", in, want, out)
 		}
+	case "fround":
+		var c rcase
+		if err := reJSON(in, &c); err != nil {
+			lib.Fatal(err)
+		}
+		out = b2s(c.monitor(mons))
 	case "cpark":
 		var c pcaseJSON
 		if err := reJSON(in, &c); err != nil {
